@@ -242,6 +242,17 @@ func runC09(c *core.Ctx) {
 			cases = append(cases, k)
 		}
 	}
+	// the small-scope family, the type matrix, the introspection matrix and the scale family (up to a
+	// hundred elements): every node of every document carries the links the model computes
+	ssStride := 300
+	if !c.Quick {
+		ssStride = 30
+	}
+	extra := append(SmallScope(ssStride), TypeMatrix()...)
+	extra = append(extra, IntrospectionDepthDocs()...)
+	extra = append(extra, ScaleDocsUpTo(101, 256)...)
+	cases = append(extra, cases...)
+	c.Count("small_scope_matrix_and_scale_documents", int64(len(extra)))
 	for k, v := range feats {
 		c.Count("feature_"+k, int64(v))
 	}
